@@ -50,3 +50,59 @@ Theorem C20_feature_closure_exact :
   closure_exact facade_features impl_features derive_feature_names = true.
 Proof. exact Proofs.closure_exact_holds. Qed.
 Print Assumptions C20_feature_closure_exact.
+
+(** `not`-free guards are monotone in the feature set *)
+Theorem C20_positive_monotone :
+  forall f : formula, positive f = true ->
+  forall v w : valuation, (forall n, v n = true -> w n = true) -> eval v f = true -> eval w f = true.
+Proof. exact Proofs.positive_monotone. Qed.
+Print Assumptions C20_positive_monotone.
+
+(** lifting from single features to arbitrary feature sets: for a use under `any(x1..xn)` and a `not`-free definition
+    guard, the n single-feature builds decide all 2^25 feature sets *)
+Theorem C20_singletons_suffice :
+  forall (xs : list N) (d : formula), positive d = true ->
+  (forall x, In x xs -> eval (single x) d = true) ->
+  forall v : valuation, eval v (FAny (map FVar xs)) = true -> eval v d = true.
+Proof. exact Proofs.singletons_suffice. Qed.
+Print Assumptions C20_singletons_suffice.
+
+(** every re-exported trait is visible (type namespace of derive_more::with_trait) exactly when its feature is on *)
+Theorem C20_trait_exports_exact :
+  forall (v : valuation) (t : string) (g : formula) (feature : N),
+    In (t, g, feature) trait_exports -> eval v g = v feature.
+Proof. exact Proofs.trait_exports_exact. Qed.
+Print Assumptions C20_trait_exports_exact.
+
+(** every helper item named by templates is compiled in exactly when some template naming it is *)
+Theorem C20_helpers_exact :
+  forall (v : valuation) (item : string) (d u : formula),
+    In (item, d, u) helper_exports -> eval v d = eval v u.
+Proof. exact Proofs.helpers_exact. Qed.
+Print Assumptions C20_helpers_exact.
+
+(** visibility under a feature set = union over its features (for any name exported exactly under one feature) *)
+Theorem C20_visible_union :
+  forall (g : formula) (f : N), (forall v, eval v g = v f) ->
+  forall S : list N, visible_under g S = existsb (fun x => visible_under g [x]) S.
+Proof. exact Proofs.visible_union. Qed.
+Print Assumptions C20_visible_union.
+
+(** cfg alternatives (the std / no_std split of the Error re-exports, ...): never two definitions of one name at once *)
+Theorem C20_alternatives_exclusive :
+  forall (v : valuation) (name : string) (gs : list formula) (a b : formula) (pre mid post : list formula),
+    In (name, gs) cfg_alternatives -> gs = (pre ++ a :: mid ++ b :: post)%list ->
+    eval v a = true -> eval v b = true -> False.
+Proof. exact Proofs.alternatives_exclusive. Qed.
+Print Assumptions C20_alternatives_exclusive.
+
+(** the no_std-capable facade names `std::..` only in code compiled under the `std` feature *)
+Theorem C20_std_only_under_std :
+  forall (v : valuation) (g : formula), In g std_use_guards -> eval v g = true -> v std_var = true.
+Proof. exact Proofs.std_only_under_std. Qed.
+Print Assumptions C20_std_only_under_std.
+
+(** the documentation file every create_derive! includes under its feature exists *)
+Theorem C20_doc_files_present : forallb (fun e : string * bool => snd e) doc_files = true.
+Proof. exact Proofs.doc_files_present. Qed.
+Print Assumptions C20_doc_files_present.
